@@ -44,7 +44,7 @@ func c13Authenticated(br *Browser) (bool, string, int, error) {
 
 func CheckC13(l *Lab, verifDir string) int {
 	rep := NewReport("C13", l.Tier, l.Seed, "exploration", verifDir)
-	rep.Rule = "OpenID login flows against real gateway processes with both session stores (cookie, file): successful callbacks with each user-name claim and many identity contents (then 20 follow-up downloads interleaved with other sessions must keep returning the same user), and scripted failures at every point (unknown state, state of another instance, state older than 125 s, also after failing / succeeding callbacks used it in between [thorough only], token endpoint 400/500/connection reset, missing id_token, bad signature, wrong issuer, wrong audience, ID token expired 2 h / 4 min / 20 s ago, alg none, HS256 under the client secret, no user-name claim, non-string claim) after which the jar with all cookies the failing exchange set must not be authenticated; every single-character substitution (sampled alternatives in quick), truncation and extension of an authenticated session cookie and the cookie of an instance with other keys must not yield a connection file unless the mutant decodes to the same bytes. authenticated(jar) := GET /connect returns 200 with a connection file. non-trivial = the callback or download was answered; distinct = store x scenario x outcome"
+	rep.Rule = "OpenID login flows against real gateway processes with both session stores (cookie, file): successful callbacks with each user-name claim and many identity contents (then 20 follow-up downloads interleaved with other sessions must keep returning the same user), and scripted failures at every point (unknown state, state of another instance, state older than 125 s, also after failing / succeeding callbacks used it in between [thorough only], token endpoint 400/500/connection reset, missing id_token, bad signature, wrong issuer, wrong audience, ID token expired 2 h / 4 min / 20 s ago, alg none, HS256 under the client secret, no user-name claim, non-string claim, the same with a JWT-shaped access token that names a user under every candidate claim; a third of the successful logins carry such an access token naming somebody else) after which the jar with all cookies the failing exchange set must not be authenticated; every single-character substitution (sampled alternatives in quick), truncation and extension of an authenticated session cookie and the cookie of an instance with other keys must not yield a connection file unless the mutant decodes to the same bytes. authenticated(jar) := GET /connect returns 200 with a connection file. non-trivial = the callback or download was answered; distinct = store x scenario x outcome"
 	if l.Quick() {
 		rep.Assume("quick tier skips the 125 s state-expiry probe (run in the thorough tier)")
 	}
@@ -162,6 +162,10 @@ func c13Store(l *Lab, rep *Report, idp *IdP, store string) {
 		{"alg none", CodeSpec{User: "u1", TokenMode: "alg_none"}, ""}, {"HS256 under the client secret", CodeSpec{User: "u1", TokenMode: "hs256_secret"}, ""},
 		{"no user-name claim", CodeSpec{User: "u1", TokenMode: "no_username"}, ""}, {"non-string user-name claim", CodeSpec{User: "u1", TokenMode: "nonstring_username"}, ""},
 		{"unknown code", CodeSpec{}, "code-unknown"},
+		// the access token is JWT-shaped and names a user; the ID token, the only verified statement, does not
+		{"no user-name claim but a JWT access token that names a user", CodeSpec{User: "u1", TokenMode: "no_username", AccessTokenClaims: c13ATClaims("administrator")}, ""},
+		{"non-string user-name claim but a JWT access token that names a user", CodeSpec{User: "u1", TokenMode: "nonstring_username", AccessTokenClaims: c13ATClaims("administrator")}, ""},
+		{"bad signature and a JWT access token that names a user", CodeSpec{User: "u1", TokenMode: "bad_sig", AccessTokenClaims: c13ATClaims("administrator")}, ""},
 	}
 	reps := l.Pick(6, 60)
 	for r := 0; r < reps; r++ {
@@ -231,7 +235,14 @@ func c13Store(l *Lab, rep *Report, idp *IdP, store string) {
 				rep.Inconclusive("no state")
 				continue
 			}
-			code := idp.NewCode(CodeSpec{User: n, UsernameClaim: cn})
+			spec := CodeSpec{User: n, UsernameClaim: cn}
+			if (i+ci)%3 == 0 {
+				// a JWT-shaped access token that names somebody else under every candidate claim: the
+				// session's user is the verified ID token's
+				spec.AccessTokenClaims = c13ATClaims("administrator")
+				rep.Count("logins_with_jwt_access_token", 1)
+			}
+			code := idp.NewCode(spec)
 			cb, err := br.Do("GET", "/callback?state="+url.QueryEscape(state)+"&code="+url.QueryEscape(code), nil)
 			if err != nil {
 				rep.Inconclusive("callback: " + err.Error())
@@ -471,4 +482,10 @@ func c13Concurrent(l *Lab, rep *Report, a *c13Inst, idp *IdP, store string) {
 	}
 	wg.Wait()
 	rep.Eval(HashStr(store, "concurrent-phase"))
+}
+
+// c13ATClaims: the payload of a JWT-shaped access token naming `user` under every claim the gateway
+// looks a user name up in.
+func c13ATClaims(user string) map[string]any {
+	return map[string]any{"sub": user, "preferred_username": user, "unique_name": user, "upn": user, "username": user, "name": user, "email": user + "@example.test", "iss": "https://adfs.example.test", "aud": "rdpgw"}
 }
